@@ -716,7 +716,7 @@ func main() {
 				"Part C (client-side histories): every ordered pair over %d S1 and %d S2 history values (Str in {empty, a, %%41} x Strs in {nil, empty non-nil, [empty string], 1, 2, 3 elements}; scalars jointly {zero, small, extreme} x slices jointly {nil, empty non-nil, one zero element, one non-zero element, two elements}) and every ordered triple over %d / %d of them is configured into ONE client-side container of every carrier that has one - the same Request object (struct setter applied 2-3 times, one send), the client-wide defaults (updated 2-3 times, a bare request after every update), consecutive requests from one client's request pool, and a Request whose body was first set through another body carrier - and the struct decoded by the server is compared with the value configured LAST; a failure that the same value shows on a fresh request is filed under the part-A signature; non-trivial = two consecutive steps configure different values. "+
 				"Declaration family (part A): two more shapes, T1 (%d values: every field with a different name per carrier through param/query/form/header/cookie/json/xml/cbor tags, two string fields and the int / []int fields with CROSSED names, one untagged field) and K1 (%d values: int, int16, int32, uint, uint8, uint16, slices of int8..uint32, a string, an unexported field) run through the same product, and for every shape extra variants in which the client is handed a POINTER to the struct. "+
 				"Part D (families over compact value sets of all four shapes, %d+%d+%d+%d values): configuration - %d station flavors with a configuration field that is redundant for binding (accept-all StructValidator, Immutable, StreamRequestBody, explicit default codecs, custom binders registered for %d neighbour MIME types of the standard ones, a custom binder serving application/json; each alone and all together) x carriers x splitting x auto x {direct, Body()}; combined - one request carries a different value in query, header, cookie and one of {no body, form, multipart, json, xml, cbor} (every (query value, body value) pair, header and cookie values rotated) and the handler runs a bind program on it (%d programs for four carriers: an adjacency-covering set of bind orders - thorough: all permutations, body step direct and through Body() - every source bound twice, body bound through Body() and directly in both orders), every bind judged against the value put into ITS source; envelope - the struct travels in a request that also has one of %d envelope options (URL with own query / fragment, client base URL, unrelated param / header / cookie / form field on the Request before or after the struct setter or client-wide, User-Agent + Referer, cookie jar with a cookie for this and for another host, methods PUT / PATCH / DELETE / POST, everything at once). A family failure that the same value shows alone on a plain fresh request is filed under the part-A signature. "+
-					"Part E (server-side option histories): every ordered pair over %d request kinds = {manual handling by default, manual handling spelled WithoutAutoHandling, WithAutoHandling} x %d bind calls (the 8 per-source methods, Body() for the 5 body carriers, Custom(name) of a registered custom binder) x {input that binds, input that cannot bind} and every ordered triple over %d of them is served, request after request, by ONE application (one pooled ctx; a history the pool moved to another ctx is run again) and every request is compared - error presence, error kind (*fiber.Error and its code / the binder's own error), response status at the moment Bind returns, answer status, error text, decoded value - with the same request as the FIRST request of a fresh application, which is itself judged against the statement (manual: own error and untouched status; automatic: *fiber.Error 400). "+
+				"Part E (server-side option histories): every ordered pair over %d request kinds = {manual handling by default, manual handling spelled WithoutAutoHandling, WithAutoHandling} x %d bind calls (the 8 per-source methods, Body() for the 5 body carriers, Custom(name) of a registered custom binder) x {input that binds, input that cannot bind} and every ordered triple over %d of them is served, request after request, by ONE application (one pooled ctx; a history the pool moved to another ctx is run again) and every request is compared - error presence, error kind (*fiber.Error and its code / the binder's own error), response status at the moment Bind returns, answer status, error text, decoded value - with the same request as the FIRST request of a fresh application, which is itself judged against the statement (manual: own error and untouched status; automatic: *fiber.Error 400). "+
 				"Part B: %d groups (5 key-value carriers x 9 bind targets x splitting - S1, S2, S3, two string maps over the 31 hostile keys; S4 (embedded struct, unexported fields, pointers, array, interface, nested slices, time, file headers, slices of structs, bytes, a tagged field), the tagged T1, map[string]any and map[string]int over 38 keys that resolve against those declarations; in the multipart carrier every key also as a FILE part; 5 body bind calls x 10 content types x 3 targets) each over all single hostile components and all ordered pairs of them, each request run with manual and automatic handling, judged for panic / error / status / paired consistency / allocation; non-trivial = the request got past the HTTP parser and reached the binder. "+
 				"Position family (part B): %d cases = 9 targets x splitting x %d offending pairs (keys with unmatched square brackets, values that cannot be the type of a known scalar field, index / depth / dotted keys without a reference verdict) x every ordered list of 1..%d distinct accepted companion pairs (of %d) not touching the offender's field; each case sends, in each of %d carriers (query and url-encoded form with raw and with percent-encoded keys, multipart, headers, cookies), the companions alone and the offender inserted at every position (first / middle / last), under manual and automatic handling; judged: an offender with a reference verdict is an error at every position, the verdict does not depend on the position, query / form / multipart agree on the same pairs, plus the panic / status / paired-consistency rules.",
 				len(shapes[0].Values), len(strAlpha), len(shapes[1].Values), hb.H1Values, hb.H2Values, hb.H1TripleValues, hb.H2TripleValues,
@@ -733,7 +733,7 @@ func main() {
 				"envelope_options": fb.EnvOptions, "envelope_requests": fb.EnvCases,
 				"option_history_request_kinds": mb.Steps, "option_history_bind_calls": mb.Calls, "option_history_pairs": mb.Pairs, "option_history_triple_request_kinds": mb.TripleSteps, "option_history_triples": mb.Triples,
 				"option_histories_run": r.P.Counters["option_histories"],
-				"position_cases": pb.Cases, "position_requests": r.P.Counters["position_requests"], "position_offenders": pb.Offenders, "position_companions": pb.Companions, "position_max_companions_per_request": pb.MaxCompanions, "position_carriers": pb.Carriers,
+				"position_cases":       pb.Cases, "position_requests": r.P.Counters["position_requests"], "position_offenders": pb.Offenders, "position_companions": pb.Companions, "position_max_companions_per_request": pb.MaxCompanions, "position_carriers": pb.Carriers,
 				"position_offender_rejected_companions_alone_accepted": r.P.Counters["position_offender_rejected_companions_alone_accepted"],
 				"max_components_per_hostile_request":                   2, "totality_groups": len(groups), "totality_cases": totalCases,
 				"alloc_budget_bytes": budget, "alloc_max_wellformed_bytes": maxWF, "alloc_wellformed_calibration": calib,
